@@ -57,8 +57,9 @@ def stage_design(ctx, col):
     r = vlib.tlc_must_pass(ctx, "MCQiPool", cfg, workers=4 if ctx.quick else 16, timeout=3000)
     vlib.log("TLC %s: %d distinct / %d generated, depth %d, %.0fs" % (cfg, r.distinct, r.generated, r.depth, r.wall))
     col.cov.update(qi_states=r.distinct, qi_transitions=r.generated, qi_tlc_cfg=cfg, qi_tlc_wall_s=round(r.wall, 1))
-    # what the code does NOT guarantee must stay derivable from the model (and the known panic with it)
-    # (thorough tier; in the quick tier the replay of the emitted behaviours meets the panic the model predicts)
+    # what the code does NOT guarantee must stay derivable from the model, and so must the defect repaired by fix
+    # 20862e4b from the model of the pre-fix code (InactiveRefusedAtOnce = FALSE): spec-drift guards, thorough tier.
+    # No panic is specified for the current code (Assert in AddCall): a panic of a pool call is a violation.
     leads = {}
     if not ctx.quick:
         leads = {"MCQiPool_leadpanic.cfg": "NoPanic", "MCQiPool_leadconflict.cfg": "NoTwoPooledTxsConflict",
@@ -126,8 +127,8 @@ def stage_emit(ctx, col, drv):
         vlib.log("TLC %s: %d behaviours (%d of full length %d), %d distinct states, %.0fs" % (cfg, len(behs), len(full), depth, r.distinct, r.wall))
         emitted += len(behs); states += r.distinct; transitions += r.generated
         pick = full if limit is None or len(full) <= limit else rnd.sample(full, limit)
-        # behaviours that re-inject after a reorg, merge head events or meet the known panic are few: all of them (bounded)
-        special = [b for b in full if any((s["op"] == "reset" and (s.get("rj") or s.get("k", 1) > 1)) or s.get("res") == "panic" for s in b)]
+        # behaviours that re-inject after a reorg or merge head events are few: all of them (bounded)
+        special = [b for b in full if any(s["op"] == "reset" and (s.get("rj") or s.get("k", 1) > 1) for s in b)]
         extra = special if limit is None or len(special) <= 2000 or not ctx.quick else rnd.sample(special, 2000)
         for b in pick + extra:
             k = json.dumps(b, sort_keys=True)
@@ -295,7 +296,14 @@ def stage_worker(ctx, col, drv):
         args = ["-seed", sd, "-rounds", 8 if ctx.quick else 14]
         base = {"type": "qi-worker", "args": [str(a) for a in args]}
         cmd = [drv, "worker", "-outdir", out, "-result", res] + args
-        p = vlib.run(cmd, timeout=1200)
+        for attempt in range(3):
+            p = vlib.run(cmd, timeout=1200)
+            # the shared warm-up (harness/chain) gives a funding transaction 2 s to become pending: on an overloaded machine
+            # that is a failure of the machinery before anything is judged - tried again, then a broken check
+            if p.returncode == 3 and "warm-up" in (p.stderr or "") and attempt < 2:
+                vlib.log("qipooldrv worker (seed %d): warm-up failed (%s), trying again" % (sd, (p.stderr or "").strip()[-120:]))
+                continue
+            break
         if p.returncode != 0:
             raise Broken("qipooldrv worker (seed %d) failed (%d):\n%s" % (sd, p.returncode, (p.stderr or "")[-3000:]))
         rj = json.loads(res.read_text())
@@ -319,7 +327,7 @@ def stage_worker(ctx, col, drv):
             return
         stats[str(sd)] = dict(rj["stats"], blocks=rj["blocks"], transactions=rj["transactions"])
         items.append((out, base, sd))
-    with cf.ThreadPoolExecutor(max_workers=2 if ctx.quick else 4) as ex:
+    with cf.ThreadPoolExecutor(max_workers=2) as ex:
         list(ex.map(one, seeds))
     if items:
         done = validate_traces(ctx, col, [(o, b) for o, b, _ in items], "worker")
